@@ -206,6 +206,20 @@ int main() {
         DeserializationError e = deserializeJson(d3, "[\"" + s + "\",1]");
         bool deserok = delta <= 0 ? (e == DeserializationError::Ok && d3[0].as<std::string>() == s && d3[1] == 1)
                                   : (e == DeserializationError::NoMemory);
+        // and through the MessagePack deserializer, right after a repeated string (its reading buffer is kept)
+        {
+          std::string mp = "\x93\xA8" "abcdefgh" "\xA8" "abcdefgh";
+          size_t L = s.size();
+          if (L < 256) { mp += char(0xD9); mp += char(L); }
+          else if (L < 65536) { mp += char(0xDA); mp += char(L >> 8); mp += char(L & 255); }
+          else { mp += char(0xDB); mp += char((L >> 24) & 255); mp += char((L >> 16) & 255); mp += char((L >> 8) & 255); mp += char(L & 255); }
+          mp += s;
+          JsonDocument d4(&a);
+          DeserializationError e4 = deserializeMsgPack(d4, mp.data(), mp.size());
+          bool ok4 = delta <= 0 ? (e4 == DeserializationError::Ok && d4[2].as<std::string>() == s && d4[0] == "abcdefgh")
+                                : (e4 == DeserializationError::NoMemory);
+          deserok = deserok && ok4 && wellFormed(d4);
+        }
         doc.clear();
         bool clearok = !doc.overflowed() && doc["a"].set(std::string("b")) && doc["a"] == "b";
         emit(delta < 0 ? "strlen-below" : delta == 0 ? "strlen-at" : "strlen-over", r ? 1 : 0, rk, ovf, intact && keyok,
@@ -213,6 +227,34 @@ int main() {
       }
       if (!(a.liveBlocks() == 0 && a.errors().empty())) emit("strlen-ledger", 0, false, false, false, false, false, 0, false);
     }
+  }
+  // far below every limit of a build with 4-byte slot ids: one copied string shared by more users than 16 bits
+  // can count; removing one user leaves the others intact, and the linked spelling behaves the same (C14, C19)
+  if (ARDUINOJSON_SLOT_ID_SIZE >= 4) {
+    g_scn = "sharers";
+    VerifAllocator a(1);
+    {
+      const long M = 65536 + 4;
+      JsonDocument doc(&a), lnk(&a);
+      long n = 0;
+      bool r = true;
+      while (n < M && (r = doc.add(std::string("shared"))) && lnk.add("shared")) n++;
+      bool ovf = doc.overflowed();
+      doc.remove(0);
+      lnk.remove(0);
+      doc[5] = 7;   // overwriting another user
+      lnk[5] = 7;
+      bool intact = doc.size() == (size_t)(n - 1) && wellFormed(doc) && doc == lnk;
+      long k = 0;
+      for (JsonVariantConst v : doc.as<JsonArrayConst>()) { if (k != 5 && v != "shared") intact = false; k++; }
+      auto snap = ArduinoJsonVerifInspector::snapshot(doc);
+      intact = intact && snap.problems.empty() && snap.strings.size() == 1 && snap.strings[0].refs == (unsigned long)(n - 2);
+      bool reusable = doc.add(std::string("shared")) && doc[doc.size() - 1] == "shared";
+      doc.clear();
+      bool clearok = !doc.overflowed() && doc.add(std::string("shared")) && doc[0] == "shared";
+      emit(g_scn, n, !r, ovf, intact, reusable, clearok, 0, true);
+    }
+    if (!(a.liveBlocks() == 0 && a.errors().empty())) emit("sharers-ledger", 0, false, false, false, false, false, 0, false);
   }
   printf("{\"e\":\"end\"}\n");
   return 0;
